@@ -75,6 +75,14 @@ class Engine:
         ctx.record('calls_resolved', '%d/%d' % (
             self.r.stats['calls'] - self.r.stats['unknown'],
             self.r.stats['calls']))
+        al = self.m.aliases
+        if al.renamed or al.moved or al.attrs:
+            ctx.note('names mapped back to the pinned tree: functions %s; '
+                     'moved %s; attributes %s' % (
+                         ['%s (now %s)' % x for x in al.renamed],
+                         ['%s (now %s)' % (v, k)
+                          for k, v in sorted(al.moved.items())],
+                         ['%s.%s (now %s)' % x for x in al.attrs]))
         n = self.m.norm
         if n.helpers:
             ctx.record('introduced_helpers', sorted(n.helpers))
